@@ -8,7 +8,7 @@ ROOTS = ["add", "sub", "mul", "div", "mod", "bitand", "bitor", "bitxor", "shl", 
 # operand-operator kinds (R_* codes of ref_eval.h, in enum order)
 KINDS = ["add", "sub", "mul", "div", "mod", "bitand", "bitor", "bitxor", "shl", "shr", "eq", "ne", "lt", "le",
          "logand", "logor", "comma", "neg", "bitnot", "not", "cond"]
-QUICK_D2 = [(r, k) for r in ("cast", "add", "shr", "div", "lt", "cond") for k in ("sub", "shl", "bitnot", "neg", "le")]
+QUICK_D2 = [(r, k) for r in ("cast", "shr", "lt", "cond") for k in ("sub", "shl", "bitnot")]
 # host-level signed overflow / shift checks inside eval2 are not part of C07 (see chk.outside)
 FLAGS = ("--sat-solver", "cadical", "--unwinding-assertions", "--div-by-zero-check", "--no-signed-overflow-check", "--no-undefined-shift-check",
          "--drop-unused-functions", "--no-malloc-may-fail")
@@ -43,8 +43,10 @@ def main(tier, only=None):
                    "(root,kind) pairs; literal values range over the neighbourhoods [-4,3] of 0, +-2^7, +-2^8, +-2^15, "
                    "+-2^16, +-2^31, +-2^32, +-2^63 wrapped into the literal's type"
                    % ("all 22x21" if thorough else "%d selected" % len(QUICK_D2)),
-                   "for * the right operand is restricted to [-128,127]; for / and % additionally the left operand "
-                   "to [0,65535] (SAT cannot decide 64x64 multiplier/divider equivalence)"]
+                   "for * / %% the right operand is restricted to [-%d,%d] (SAT cannot decide 64x64 multiplier/divider "
+                   "equivalence); the left operand is unrestricted" % ((16, 15) if thorough else (4, 3)),
+                   "divzero: dividend = leaf or operator node (+, unary -, ?:, <<, /) over leaves, divisor = any "
+                   "literal/cast leaf whose value is 0"]
 
     if want("oracle") or not only:
         ok, n, text = c07_oracle.validate(chk.seed, 20000 if thorough else 6000)
@@ -55,8 +57,10 @@ def main(tier, only=None):
                     family="oracle")
 
     hs = []
-    H = lambda fn, key, defs, fam, tmo=300: e1.H(fn, key, unwind=24, defines=defs, flags=FLAGS, std=False,
-                                                  replace_calls=RC, timeout=tmo, family=fam)
+    mulb = ("MULB=16",) if thorough else ()
+    H = lambda fn, key, defs, fam, tmo=300, ob=None: e1.H(fn, key, unwind=24, defines=tuple(defs) + mulb, flags=FLAGS,
+                                                           std=False, replace_calls=RC, object_bits=ob,
+                                                           timeout=tmo * (3 if thorough else 1), family=fam)
     if want("fold"):
         for r in ROOTS:
             hs.append(H("h_d1_" + r, "fold/d1/%s" % r, (), "fold"))
@@ -69,7 +73,7 @@ def main(tier, only=None):
             hs.append(H("h_d1_" + r, "fold-bool/d1/%s" % r, ("CASTSET=1",), "fold-bool"))
     if want("divzero"):
         for r in ("div", "mod"):
-            hs.append(H("h_divzero_" + r, "divzero/%s" % r, (), "divzero"))
+            hs.append(H("h_divzero_" + r, "divzero/%s" % r, (), "divzero", 300, 11))
     if hs:
         e1.run_set(chk, "c07/fold.c", hs, workers=8, extra_src=extra)
 
